@@ -351,7 +351,7 @@ func EnsureFloat64(i interface{}) float64 {
 	if i32, ok := i.(float32); ok {
 		return float64(i32)
 	}
-	panic(fmt.Errorf("can't convert to float64: %v, type:%v", i, reflect.TypeOf(i)))
+	panic(fmt.Errorf("can't convert a value of type %T to float64", i))
 }
 
 //EnsureInt64 convert i to int64
@@ -362,7 +362,7 @@ func EnsureInt64(i interface{}) int64 {
 	if i32, ok := i.(int32); ok {
 		return int64(i32)
 	}
-	panic(fmt.Errorf("can't convert to int64: %v, type:%v", i, reflect.TypeOf(i)))
+	panic(fmt.Errorf("can't convert a value of type %T to int64", i))
 }
 
 //EnsureUint64 convert i to uint64
@@ -379,7 +379,7 @@ func EnsureUint64(i interface{}) uint64 {
 	if i32, ok := i.(uint32); ok {
 		return uint64(i32)
 	}
-	panic(fmt.Errorf("can't convert to uint64: %v, type:%v", i, reflect.TypeOf(i)))
+	panic(fmt.Errorf("can't convert a value of type %T to uint64", i))
 }
 
 //SetSlice set value into slice object
@@ -429,7 +429,7 @@ func ConvertSliceValueType(destTyp reflect.Type, v reflect.Value) (reflect.Value
 
 	k := v.Type().Kind()
 	if k != reflect.Slice && k != reflect.Array {
-		return _zeroValue, newCodecError("ConvertSliceValueType", "expect slice type, but get %v, objects: %v", k, v)
+		return _zeroValue, newCodecError("ConvertSliceValueType", "expect slice type, but get %v (%v)", k, v.Type())
 	}
 
 	if v.Len() <= 0 {
